@@ -448,7 +448,7 @@ func c02Sizes(n int) []int {
 func runC02(c *checker, r *rng.R) {
 	budget, nRand, depth := 4, 12000, 5
 	if *tier == "thorough" {
-		budget, nRand, depth = 6, 400000, 10
+		budget, nRand, depth = 5, 150000, 8
 	}
 	enumerated := 0
 	for _, t := range wv.AllTypes {
